@@ -25,9 +25,9 @@ ALLV = "fresh,reloaded,second,reloaded2,multi,multi"
 # property -> (batches, antecedent marks, what makes a trace non-trivial)
 # batch = (profile, cases at quick tier, extra harness arguments)
 PLAN = {
-    "C01": ([("core", 500, ["-variants", ALLV]), ("memo", 300, ["-variants", ALLV]), ("control", 120, [])],
+    "C01": ([("pattern", 2, []), ("core", 500, ["-variants", ALLV]), ("memo", 300, ["-variants", ALLV]), ("control", 120, [])],
             ["C01"], "a rule that was a candidate in the previous cycle is evaluated again after an action made its condition false"),
-    "C02": ([("core", 500, ["-variants", ALLV]), ("memo", 300, ["-variants", ALLV]), ("salience", 120, [])],
+    "C02": ([("pattern", 2, []), ("core", 500, ["-variants", ALLV]), ("memo", 300, ["-variants", ALLV]), ("salience", 120, [])],
             ["C02"], "a rule whose condition was false in the previous cycle is evaluated again after an action made it true"),
     "C03": ([("salience", 600, ["-reps", "3"]), ("core", 150, []), ("control", 100, [])],
             ["C03"], "a rule fired in a cycle whose recomputed conflict set held candidates of different salience"),
@@ -59,7 +59,24 @@ THOROUGH_FACTOR = 12
 def run_batch(gh, idx, profile, n, extra, seed, reps=2):
     d = os.path.join(scratch(), "b%d" % idx)
     os.makedirs(d, exist_ok=True)
-    if profile.startswith("grb:"):
+    extra_model = None
+    if profile == "pattern":
+        # layer M: TLC exhausts the taint model (MemoSound) and exports every dependency pattern; each is instantiated and run
+        res = tlc(None, "GruleMemo.tla", "MCMemo.cfg", os.path.join(d, "export"), workers=4, timeout=3000)
+        if not res["ok"]:
+            tlc_failed(res, "GruleMemo.tla / MCMemo.cfg (MemoSound)")
+        seen = set()
+        with open(os.path.join(d, "patterns.ndjson"), "w") as o:
+            for line in res["out"].splitlines():
+                if line.startswith('"CASE '):
+                    s = json.loads(line)[5:]
+                    if s not in seen:
+                        seen.add(s)
+                        o.write(s + "\n")
+        extra_model = {"what": "GruleMemo.tla / MCMemo.cfg: taint abstraction of the working memory, invariant MemoSound, %d dependency patterns exported" % len(seen),
+                       "distinct": res["distinct"], "generated": res["generated"], "patterns": len(seen)}
+        cmd = [gh, "pattern-traces", "-in", "patterns.ndjson", "-worlds", str(n), "-seed", str(seed), "-out", "trace.ndjson", "-cases", "cases.ndjson"]
+    elif profile.startswith("grb:"):
         # C12 fault enumeration on the stored stream (truncation offsets, failing writer); traces only of prefixes that load
         cmd = [gh, "grb-faults", "-profile", profile[4:], "-seed", str(seed), "-n", str(n), "-out", "trace.ndjson", "-cases", "cases.ndjson"] + extra
     else:
@@ -76,14 +93,14 @@ def run_batch(gh, idx, profile, n, extra, seed, reps=2):
         raise ToolError("driver printed no statistics: %s\n%s" % (" ".join(cmd), p.stdout[-2000:] + p.stderr[-2000:]))
     stats.setdefault("dropped_big", 0)
     if profile.startswith("grb:") and stats["events"] == 0:
-        return {"dir": d, "profile": profile, "stats": stats, "cmd": " ".join(cmd[1:]),
+        return {"dir": d, "profile": profile, "stats": stats, "cmd": " ".join(cmd[1:]), "extra_model": None,
                 "tlc": {"flags": [], "distinct": 0, "summary": {"marks": {}, "lines": 0}}}
     if stats.get("events", 0) == 0:
         raise ToolError("driver produced no events: %s\n%s" % (" ".join(cmd), p.stdout[-2000:] + p.stderr[-2000:]))
     res = tlc(None, "TraceEngine.tla", "TraceEngine.cfg", d, workers=1, timeout=3000)
     if not res["ok"] or res["summary"] is None or res["summary"]["lines"] != stats["events"]:
         tlc_failed(res, "batch %d (%s)" % (idx, profile))
-    return {"dir": d, "profile": profile, "stats": stats, "tlc": res, "cmd": " ".join(cmd[1:])}
+    return {"dir": d, "profile": profile, "stats": stats, "tlc": res, "cmd": " ".join(cmd[1:]), "extra_model": extra_model}
 
 
 def load_case(d, tid):
@@ -185,6 +202,8 @@ def evaluate(prop, batches, marks, rule, thorough_factor=None):
         parts = max(1, min(12, total // 400)) if tier == "thorough" else 1
         if profile.startswith("grb:"):
             parts = total  # one rule set per process
+        if profile == "pattern":
+            parts, total = 1, (n if tier == "quick" else 4 * n)  # fact states per pattern
 
         for part in range(parts):
             jobs.append((idx, profile, total // parts, extra, seed * 7919 + idx * 101 + part))
@@ -207,7 +226,7 @@ def evaluate(prop, batches, marks, rule, thorough_factor=None):
     for b in results:
         traces += b["stats"]["runs"] - b["stats"]["dropped_big"]
         events += b["stats"]["events"]
-        for k, v in (b["tlc"]["summary"]["marks"] or {}).items():
+        for k, v in dict(b["tlc"]["summary"]["marks"] or {}).items():
             mark_counts[k] = mark_counts.get(k, 0) + v
         first = {}
         for code, tid, line in b["tlc"]["flags"]:
@@ -256,7 +275,8 @@ def evaluate(prop, batches, marks, rule, thorough_factor=None):
             samples.append({"profile": b["profile"], "variant": c["variant"], "grl": c["grl"], "calls": [
                 {"mode": x["mode"], "max": x["max"], "flag": x["flag"], "cancelAt": x["cancelAt"]} for x in c["calls"]]})
     cov = {
-        "states": model["distinct"], "transitions": model["generated"],
+        "states": model["distinct"] + sum(b["extra_model"]["distinct"] for b in results if b.get("extra_model")),
+        "transitions": model["generated"] + sum(b["extra_model"]["generated"] for b in results if b.get("extra_model")),
         "model": "%s / %s: exhaustive, no invariant or action property violated" % MODEL[tier],
         "traces_validated_against_impl": traces, "trace_events": events,
         "monitor_states": sum(b["tlc"]["distinct"] for b in results),
@@ -264,6 +284,7 @@ def evaluate(prop, batches, marks, rule, thorough_factor=None):
         "rule": "trace = one Execute/Fetch call of a generated rule set on generated facts (seeded; rule order = Go map order, "
                 "each case run several times). Non-trivial for %s: %s; counted by the monitor itself as (property, trace) marks." % (prop, rule),
         "antecedent_marks": mark_counts, "batches": [b["cmd"] for b in results],
+        "layer_M_model": [b["extra_model"] for b in results if b.get("extra_model")],
         "samples": samples, "exhaustive": False, "flags_first_per_trace": len(flagged), "unreproduced_flags": unreproduced,
     }
     assumptions = ["TLC and the CommunityModules Json module", "the harness projection (fact snapshot, GRL printer)",
